@@ -26,6 +26,10 @@ def coq_op(o, rel):
     if o[0] == "block":
         body = "[" + "; ".join("(%s, %s)" % (vlib.z(t), cb(t in rel)) for t in o[4]) + "]"
         return "(OBlock %s %s %s %s %s)" % (vlib.z(o[1]), vlib.z(o[2]), zl(o[3]), body, cb(o[5]))
+    if o[0] == "fault":
+        return "(OFault %s)" % zl(o[1])
+    if o[0] == "restart":
+        return "(ORestart %s %s)" % (cb(o[1]), cb(o[2]))
     raise KeyError(o[0])
 
 
@@ -41,16 +45,26 @@ def sym_root(ids):
     return level[0]
 
 
-def relink(ops):
-    """prev of every block op := the tip at that moment (what a peer extending the chain would send)."""
-    tip, held = 0, set()
+def relink(ops, insync=0):
+    """prev of every block op := the tip at that moment (what a peer extending the chain would send).
+    Follows what the node holds: a header is added when the block passes the gates (even if processing is
+    then cut short by a fault), headers are saved after every block only when in sync, a hard restart goes
+    back to the saved headers."""
+    chain, saved = [], []
     out = []
     for o in ops:
         if o[0] == "block":
+            tip = chain[-1] if chain else 0
             o = ["block", o[1], tip, o[3], o[4], o[5]]
-            if o[1] not in held and (o[5] or sym_root(o[4]) == sym_root(o[3])):
-                held.add(o[1])
-                tip = o[1]
+            if o[1] not in chain and (o[5] or sym_root(o[4]) == sym_root(o[3])):
+                chain = chain + [o[1]]
+                if insync:
+                    saved = list(chain)
+        elif o[0] == "restart":
+            if o[1]:
+                saved = list(chain)
+            chain = list(saved)
+            insync = o[2]
         out.append(o)
     return out
 
@@ -171,7 +185,72 @@ def gen_case(rng, first_size=None, first_mode=None, lie_ok=True):
         ops.append(["block", hid[0], 0, ids, body if rng.chance(3, 4) else list(ids), 1])
         tags.append("lie")
     cfg["rel"] = sorted(set(cfg["rel"]))
-    return {"cfg": cfg, "ops": relink(ops), "tags": tags}
+    return {"cfg": cfg, "ops": relink(ops, cfg["insync"]), "tags": tags}
+
+
+def gen_abort_case(rng, k):
+    """a block whose processing is cut short by an output-fetch fault after its first pass has recorded the
+    new relevant txids in the per-height file; restart on the same storage; the block processed again.
+    Varies: abort position x relevant positions x previously seen (persisted / in memory only) x in sync."""
+    cfg = {"insync": k % 2 if k < 8 else int(rng.chance(1, 3)), "parse": int(rng.chance(1, 2)), "rel": []}
+    ops, tags = [], ["abort"]
+    nxt = [1]
+
+    def fresh_tx():
+        t = nxt[0]
+        nxt[0] += 1
+        return t
+
+    n = rng.choice([2, 3, 4, 5, 5, 6, 7, 8, 9, 12, 17]) if k >= 4 else [3, 5, 6, 9][k]
+    ids = [fresh_tx() for _ in range(n)]
+    nrel = rng.range(2, min(n, 6))
+    relpos = sorted(set(rng.shuffle(list(range(n)))[:nrel]))
+    rel = [ids[p] for p in relpos]
+    cfg["rel"] += rel
+    # the transaction whose output fetch fails must be a NEW relevant one: never seen unconfirmed
+    fpos = rng.below(len(rel))
+    fault = rel[fpos]
+    others = [t for t in rel if t != fault]
+    seen_persisted = [t for t in others if rng.chance(2, 5)]
+    seen_volatile = [t for t in others if t not in seen_persisted and rng.chance(1, 4)]
+    hid = 0
+    prelude = None
+    for t in rng.shuffle(seen_persisted + [t for t in ids if t not in rel and rng.chance(1, 8)]):
+        ops.append(["seen", t])
+    if seen_persisted or rng.chance(1, 3):
+        # a block processed to its end persists the unconfirmed list
+        hid += 1
+        pid = [fresh_tx() for _ in range(rng.range(1, 3))]
+        if rng.chance(1, 2):
+            cfg["rel"].append(pid[0])
+        prelude = ["block", hid, 0, pid, list(pid), 0]
+        ops.append(prelude)
+    for t in rng.shuffle(seen_volatile):
+        ops.append(["seen", t])
+    hid += 1
+    blk = ["block", hid, 0, ids, list(ids), 0]
+    ops.append(["fault", [fault]])
+    ops.append(blk)
+    keep_fault = rng.chance(1, 6)
+    if not keep_fault:
+        ops.append(["fault", []])
+    ops.append(["restart", int(rng.chance(1, 8)), int(rng.chance(1, 2)) if cfg["insync"] else int(rng.chance(1, 6))])
+    if prelude:
+        ops.append(list(prelude))
+    ops.append(list(blk))
+    if keep_fault:
+        ops.append(["fault", []])
+        ops.append(["restart", 0, 0])
+        if prelude:
+            ops.append(list(prelude))
+        ops.append(list(blk))
+    if rng.chance(1, 3):
+        hid += 1
+        more = [fresh_tx() for _ in range(rng.range(1, 4))]
+        cfg["rel"].append(more[-1])
+        ops.append(["block", hid, 0, more, list(more), 0])
+    cfg["rel"] = sorted(set(cfg["rel"]))
+    return {"cfg": cfg, "ops": relink(ops, cfg["insync"]), "tags": tags}
 
 
 def finish_case(c):
@@ -228,7 +307,10 @@ def suites(tier, rng, replay):
                 k += 1
                 cases.append(gen_case(r, n, mode, lie_ok=False))
         n = 250 if tier == "quick" else 3000
-        for i in range(max(0, n - k)):
+        nab = 60 if tier == "quick" else 700
+        for i in range(nab):
+            cases.append(gen_abort_case(rng.fork(70000 + i), i))
+        for i in range(max(0, n - k - nab)):
             r = rng.fork(40000 + i)
             cases.append(gen_case(r))
     # what was covered (printed into the evidence, not assumed)
@@ -239,7 +321,7 @@ def suites(tier, rng, replay):
         for o in c["ops"]:
             if o[0] == "seen":
                 seen.add(o[1])
-            else:
+            elif o[0] == "block":
                 sizes[len(o[4])] = sizes.get(len(o[4]), 0) + 1
                 if o[3] == o[4]:
                     nrel += sum(1 for t in o[4] if t in rel)
@@ -300,7 +382,7 @@ def shrink(rec, workdir):
         if budget[0] <= 0:
             return None
         budget[0] -= 1
-        cand = relink(cand)
+        cand = relink(cand, cfg.get("insync", 0))
         return fails_same(rec, cfg, cand, workdir, budget[0])
 
     cand = ops[:rec.get("step", len(ops) - 1) + 1]
@@ -350,9 +432,10 @@ SPEC = {
     "assumptions": [
         "txids of a block are pairwise distinct (excludes the CVE-2012-2459 shape [a,b,c] ~ [a,b,c,c], which does hash to the same root)",
         "no two transactions of a history spend the same output (conflict handling is C05/C06); a txid is confirmed once",
+        "an injected output-fetch fault never concerns a transaction that also arrives unconfirmed; after a hard crash a previously delivered transaction may come back as new or as update (either kind accepted, the proof is checked all the same)",
         "the block implements wire.Block honestly (wire.MsgBlock / wire.MsgParseBlock): with a block type whose IsMerkleRootValid lies, ProcessBlock adds and announces the header before its own root comparison fails (modelled; theorem C04_second_gate_unreachable shows the honest types never get there)",
     ],
-    "rule": "histories of unconfirmed arrivals and blocks of 1..40 transactions (grid: sizes 1-9,15-17,31-33 x relevant subset none/all/first/last/last-of-odd-layer/random), relevant txs previously seen or not, bodies corrupted under an unchanged header (added/dropped/reordered/altered tx) followed or not by the good body, wire.MsgBlock and wire.MsgParseBlock, in sync or not; distinct = distinct (cfg, ops)",
+    "rule": "histories of unconfirmed arrivals and blocks of 1..40 transactions (grid: sizes 1-9,15-17,31-33 x relevant subset none/all/first/last/last-of-odd-layer/random), relevant txs previously seen or not, bodies corrupted under an unchanged header (added/dropped/reordered/altered tx) followed or not by the good body, wire.MsgBlock and wire.MsgParseBlock, in sync or not; plus abort scenarios: an output-fetch fault cuts ProcessBlock short after its first pass recorded the new relevant txids in the per-height file (abort position x relevant positions x previously seen persisted / in memory only x in sync or not), graceful or hard restart on the same storage, the blocks processed again; distinct = distinct (cfg, ops)",
 }
 
 if __name__ == "__main__":
